@@ -4,8 +4,12 @@ set -u
 patch="$1"; prop="$2"; tier="${3:-quick}"
 cd /verif
 if ! git -C /repo diff --quiet -- src Cargo.toml build.rs; then echo "repo not clean"; exit 3; fi
+cp -f evidence/$prop.json /tmp/try_seed_evidence.json 2>/dev/null
 git -C /repo apply "$patch" || { echo "patch does not apply"; exit 3; }
 ./check "$prop" --tier "$tier" > /tmp/try_seed.out 2>&1; rc=$?
 git -C /repo checkout -- . 
+cp -f /tmp/try_seed_evidence.json evidence/$prop.json 2>/dev/null
+# regenerate the tables from the restored tree so that the next build does not start from the seeded ones
+python3 tools/extract.py > /dev/null
 grep -E "^VIOLATION|^property=|CHECK-BROKEN|broken obligation" /tmp/try_seed.out | cut -c1-400
 echo "rc=$rc"
